@@ -148,12 +148,58 @@ refs:
 		key := fmt.Sprintf("%s <- %s#%d", what, ref.Where, seen[ref.Where])
 		if allow[ref.Where] {
 			c.R.Pass(rule, key, c.Pos(ref.Pos), ref.Kind+" from tabled caller", false)
+		} else if via, ok := c.privateHelperOf(ref.Where, allow, 2); ok && ref.Kind == "call" {
+			// an unexported helper that is only ever called (never used as a value) by tabled
+			// callers is part of them: the callee stays reachable from the tabled functions only
+			c.R.Pass(rule, key, c.Pos(ref.Pos), ref.Kind+" from "+ref.Where+", an unexported helper called only by "+via, false)
 		} else {
 			c.R.Fail(rule, fmt.Sprintf("%s <- %s", what, ref.Where), c.Pos(ref.Pos),
 				fmt.Sprintf("%s of %s from %s, which is not in the closed caller table {%s}", ref.Kind, what, ref.Where, strings.Join(allowed, ", ")))
 		}
 	}
 	return n
+}
+
+// privateHelperOf reports whether the function containing ref is an unexported
+// declared function whose every reference in product code is a call from an
+// allowed function (or from another such helper, bounded depth).
+func (c *Ctx) privateHelperOf(where string, allow map[string]bool, depth int) (string, bool) {
+	if depth <= 0 {
+		return "", false
+	}
+	i := strings.Index(where, ".(")
+	var rel, name string
+	if i >= 0 {
+		rel, name = where[:i], where[i+1:]
+	} else if j := strings.LastIndex(where, "."); j >= 0 {
+		rel, name = where[:j], where[j+1:]
+	} else {
+		return "", false
+	}
+	f := c.W.LookupFunc(rel, name)
+	if f == nil || f.Exported() {
+		return "", false
+	}
+	callers := map[string]bool{}
+	refs := c.W.Refs(Set(f))
+	if len(refs) == 0 {
+		return "", false
+	}
+	for _, r2 := range refs {
+		if r2.Kind != "call" {
+			return "", false
+		}
+		if allow[r2.Where] || r2.Where == where {
+			callers[r2.Where] = true
+			continue
+		}
+		if _, ok := c.privateHelperOf(r2.Where, allow, depth-1); ok {
+			callers[r2.Where] = true
+			continue
+		}
+		return "", false
+	}
+	return strings.Join(sortedKeys(callers), ", "), true
 }
 
 // ---- K2 who-may-write -------------------------------------------------------
